@@ -70,6 +70,19 @@ TENSOR_OPS = {
 }
 
 
+# torch functions without a method form: positional parameters, so that `torch.cat(xs, dim=0)` and `torch.cat(xs, 0)` are one call
+FUNC_SIGS = {"cat": ["tensors", "dim"], "stack": ["tensors", "dim"], "where": ["condition", "input", "other"], "arange": ["start", "end", "step"],
+             "full": ["size", "fill_value"], "linspace": ["start", "end", "steps"], "pad": ["input", "pad", "mode", "value"],
+             "linear": ["input", "weight", "bias"], "conv2d": ["input", "weight", "bias", "stride", "padding", "dilation", "groups"]}
+
+
+# functions of their arguments only (no hidden state): the same call before and after an effect is the same value
+PURE_FUNCS = {"isinstance", "len", "float", "int", "bool", "abs", "max", "min", "sum", "tuple", "list", "range", "repeat", "chain", "slice", "zip",
+              "enumerate", "ceil", "floor", "exp", "log", "sqrt", "full", "zeros", "ones", "empty", "cat", "stack", "where", "einsum", "rearrange",
+              "reduce", "arange", "tensor", "as_tensor", "prod", "partial", "str", "dict", "set", "sorted", "reversed", "map", "filter", "any", "all",
+              "hasattr", "type", "id"}
+
+
 VALIDATORS = {"lt", "lte", "gt", "gte", "neq", "minmax_incl", "minmax_excl", "min_excl_max_incl", "min_incl_max_excl", "integer",
               "instance", "identifier", "nestedidentifier", "index"}
 
@@ -96,6 +109,7 @@ class Builder:
         self.summarise_loops = summarise_loops  # a loop is the term loop(iterable, what one iteration computes / stores / calls) instead of an opaque region
         self.track_effects = track_effects  # calls evaluated as statements are appended to the pseudo-store "!effects" (ordered, path-sensitive)
         self.track_locals = track_locals   # item stores / deletes on local containers are recorded as stores "<name>[]"
+        self._epoch = 0                    # number of effectful calls executed so far on this path (see e_Attribute)
         self.stores: dict[str, object] = {}   # dotted attribute path -> term (last store on this path)
         self.effects: list = []               # (kind, detail) for calls evaluated as statements
 
@@ -106,6 +120,7 @@ class Builder:
                     keep_raises=self.keep_raises, track_locals=self.track_locals, track_effects=self.track_effects,
                     summarise_loops=self.summarise_loops, erase_persistence=self.erase_persistence, inline_new=self.inline_new, bind_args=self.bind_args)
         b.module_names = getattr(self, "module_names", set())
+        b._epoch = self._epoch
         b.stores = dict(self.stores)
         return b
 
@@ -152,6 +167,10 @@ class Builder:
                 pass
             elif base in self.env:
                 return mk_attr(self.env[base], ".".join(d.split(".")[1:]))
+            if self.track_effects and self._epoch and "." in d and base not in MODULE_BASES and base not in getattr(self, "module_names", ()):
+                # an effectful call may have changed the object's state: a read after it is not the read before it
+                # (so moving a read across a call is a change, as it is for the program)
+                return sym(f"{d}@{self._epoch}")
             return sym(d)
         return mk_attr(self.t(e.value), e.attr)
 
@@ -290,7 +309,11 @@ class Builder:
         return app("const", "fstring")
 
     def e_Starred(self, e):
-        return app("star", self.t(e.value))
+        v = e.value
+        # `*tuple(xs)` / `*list(xs)` unpack the same elements as `*xs`
+        while isinstance(v, ast.Call) and isinstance(v.func, ast.Name) and v.func.id in ("tuple", "list") and len(v.args) == 1 and not v.keywords:
+            v = v.args[0]
+        return app("star", self.t(v))
 
     def e_Dict(self, e):
         return app("dict", *[(self.t(k) if k is not None else "**", self.t(v)) for k, v in zip(e.keys, e.values)])
@@ -595,8 +618,18 @@ class Builder:
                     break
             args = [args[0]] + rest
             is_method = True
+        if n in FUNC_SIGS and not is_method and e is not None and isinstance(e.func, ast.Attribute) and dotted(e.func.value) in ("torch", "F"):
+            sig = FUNC_SIGS[n]
+            args, kws = list(args), dict(kws)
+            for nm in sig[len(args):]:
+                if nm in kws:
+                    args.append(kws.pop(nm))
+                else:
+                    break
         kwt = tuple((k, v) for k, v in sorted(kws.items()))
         op = ("m." if is_method else "f.") + n
+        if self.track_effects and self._epoch and (is_method or n not in PURE_FUNCS):
+            op += f"@{self._epoch}"      # a call after an effectful call may see changed state: it is not the same call as before it
         if kwt:
             return app(op, *args, ("kw",) + kwt)
         return app(op, *args)
@@ -637,6 +670,7 @@ class Builder:
                 rb = bb.run(st.orelse + rest)
                 # merge stores for callers interested in them
                 self._merge_stores(c, ba, bb, ra, rb)
+                self._epoch = max(ba._epoch, bb._epoch)
                 if ra is BOTTOM:
                     self.env = bb.env
                     return rb
@@ -732,6 +766,7 @@ class Builder:
                     finally:
                         self.inline_depth = save
                     self.stores["!effects"] = app("seq", self.stores.get("!effects", sym("!effects")), ct if isinstance(ct, Rat) else app("tuple", *ct) if isinstance(ct, tuple) else app("const", str(ct)))
+                    self._epoch += 1
         elif isinstance(st, ast.Delete) and self.track_locals:
             for tg in st.targets:
                 if isinstance(tg, ast.Subscript) and dotted(tg.value) is not None:
@@ -1036,12 +1071,18 @@ def signature_term(b: "Builder", node) -> Rat:
     return app("signature", names, tuple(sorted(items, key=lambda kv: kv[0])))
 
 
+def decorators_term(node) -> Rat:
+    """How the function is wrapped (property / setter / classmethod / a cache ...): a cached property is not a property."""
+    return app("decorators", tuple(sorted(ast.unparse(d) for d in node.decorator_list)))
+
+
 def function_term(prog: Program, func: Func, env=None, **opts):
     """Term returned by `func` with parameters as symbols (or bound through env)."""
     b = Builder(prog, func, env or {}, **opts)
     r = b.run(strip_doc(func.node.body))
     if b.track_effects:
         b.stores["!signature"] = signature_term(Builder(prog, func, {}, inline_depth=0), func.node)
+        b.stores["!decorators"] = decorators_term(func.node)
     return r, b
 
 
